@@ -588,7 +588,11 @@ class WsgiApplication(HttpBase):
         if len(length) == 0:
             length = 0
         else:
-            length = int(length)
+            try:
+                length = int(length)
+            except ValueError:
+                raise Fault('Client.BadRequest',
+                                 "Invalid Content-Length header %r" % (length,))
 
         if length > self.max_content_length:
             raise RequestTooLongError()
